@@ -33,14 +33,41 @@ theorem sprintKVs_norm : ∀ kvs : List (GoVal × GoVal), sprintKVs (normKVs fal
   | (k, v) :: r => by simp only [normKVs, sprintKVs, sprint_norm v, sprintKVs_norm r]
 end
 
+mutual
+/-- printing in Go syntax after `values.ResolveDrops` does not see the representation, drops nested in
+    containers included (`d = true`): the repair `fixes/nested-drops-resolved` -/
+theorem sprintR_norm (d : Bool) : ∀ v : GoVal, sprint (v.norm d).resolveDrops = sprint v.resolveDrops
+  | .drop v => by
+    rw [norm]; split
+    · rfl
+    · rw [resolveDrops_drop]; exact sprintR_norm d v
+  | .slice _ xs => by simp only [norm, resolveDrops_slice, sprint, sprintAllR_norm d xs]
+  | .array _ xs => by simp only [norm, resolveDrops_slice, resolveDrops_array, sprint, sprintAllR_norm d xs]
+  | .map kt vt kvs => by
+    cases h : isRec (.map kt vt kvs) with
+    | true => rw [norm_of_isRec h]
+    | false => rw [norm_map_nonrec h]; simp only [resolveDrops_map, sprint, sprintKVsR_norm d kvs]
+  | .nil | .bool _ | .int _ _ | .flt _ _ | .str _ | .bytes _
+  | .mapSlice _ | .keyedMap _ | .range _ _ | .ptr _ | .nilPtr
+  | .struct _ | .time _ => by simp [norm]
+theorem sprintAllR_norm (d : Bool) : ∀ xs : List GoVal,
+    sprintAll (resolveDropsList (normList d xs)) = sprintAll (resolveDropsList xs)
+  | [] => rfl
+  | x :: xs => by simp only [normList, resolveDropsList, sprintAll, sprintR_norm d x, sprintAllR_norm d xs]
+theorem sprintKVsR_norm (d : Bool) : ∀ kvs : List (GoVal × GoVal),
+    sprintKVs (resolveDropsVals (normKVs d kvs)) = sprintKVs (resolveDropsVals kvs)
+  | [] => rfl
+  | (k, v) :: r => by simp only [normKVs, resolveDropsVals, sprintKVs, sprintR_norm d v, sprintKVsR_norm d r]
+end
+
 theorem writeObjectL_map_norm (kt vt : Ty) (kvs : List (GoVal × GoVal)) :
     writeObjectL ((GoVal.map kt vt kvs).norm false) = writeObjectL (.map kt vt kvs) := by
-  have h := sprint_norm (.map kt vt kvs)
+  have h := sprintR_norm false (.map kt vt kvs)
   cases hr : isRec (.map kt vt kvs) with
   | true => rw [norm_of_isRec hr]
   | false =>
     rw [norm_map_nonrec hr] at h ⊢
-    simpa [writeObjectL] using h
+    simpa [writeObjectL, sprintR] using h
 
 mutual
 theorem writeChunksL_norm : ∀ v : GoVal, writeChunksL (v.norm false) = writeChunksL v
